@@ -16,6 +16,13 @@ import (
 // disk after at least one simulated second (a restart takes time).
 func (r *storeRig) reopen(gap time.Duration) {
 	r.store = nil
+	r.issuedBeforeRestart = map[string]map[string]bool{}
+	for mb, l := range r.ids {
+		r.issuedBeforeRestart[mb] = map[string]bool{}
+		for _, id := range l {
+			r.issuedBeforeRestart[mb][id] = true
+		}
+	}
 	simrt.Sleep(gap)
 	st, err := openStore(r.cfg, r.eh)
 	if err != nil {
